@@ -29,7 +29,14 @@ PROP = {'rule': 'rapid-generated cases. A case = one webhook-mutated pod (1-5 re
  'units': [{'name': 'batchresource',
             'pkg': 'pkg/koordlet/runtimehooks/hooks/batchresource',
             'files': ['C14/c14_batchresource_test.go'],
-            'tests': [{'run': 'TestVerifC14Hooks', 'quick': 10000, 'thorough': 25000}]}],
+            'tests': [{'run': 'TestVerifC14Hooks', 'quick': 10000, 'thorough': 25000}]},
+           # the statement's input is "a request built from a webhook-mutated pod": the per-container summary annotation the hooks
+           # read is written by pkg/webhook/pod/mutating/extended_resource_spec.go (one of C14's anchors). That step is checked by
+           # the C13 mutating harness (annotation decodes to exactly the batch entries of the final spec), run here as a C14 unit.
+           {'name': 'webhook-annotation',
+            'pkg': 'pkg/webhook/pod/mutating',
+            'files': ['C13/c13_mutating_test.go'],
+            'tests': [{'run': 'TestVerifC13Mutating', 'quick': 2000, 'thorough': 8000, 'shrinktime': '15s', 'env': {'GOGC': '400'}}]}],
  'manifest': {'technique': 'property-based testing (rapid): generated webhook-mutated pods x rule configurations, driven through the '
                            'proxy, NRI and reconciler entry points, with an independent re-statement of the cgroup conversions as oracle '
                            'and output-vs-output relations between pod level and container level',
